@@ -253,6 +253,15 @@ func main() {
 					otps[i].CleanOriginal()
 				}
 			}
+		case "limit":
+			// leaf: DeltaSelector.deltaSizeLimit on a grid
+			var outs []lib.Out
+			for _, x := range c.L("args") {
+				a := x.([]any)
+				v := func(i int) int64 { return lib.Case{"v": a[i]}.I("v") }
+				outs = append(outs, lib.Int(packfile.VerifDeltaSizeLimit(v(0), int(v(1)), int(v(2)), v(3) != 0)))
+			}
+			return lib.List(outs...), nil
 		case "select":
 			var hs []plumbing.Hash
 			for _, k := range c.L("order") {
@@ -263,6 +272,64 @@ func main() {
 			otps, err = sel.ObjectsToPack(hs, uint(c.I("window")))
 			if err != nil {
 				return lib.Err("select"), map[string]any{"error": err.Error()}
+			}
+			if c.Bool("sel") {
+				// what the selection model needs: per requested object (uid = position in the request) its id key,
+				// type, size and the id key of the base when the storer hands it out as a stored delta; the order
+				// of the returned slice; the size of getDelta's output for every in-window pair of a group
+				window := int(c.I("window"))
+				uidOf := map[string]int{}
+				var info [][]int64
+				for u, h := range hs {
+					uidOf[h.String()] = u
+					o := objs[keys[h.String()]]
+					stored, actual := int64(-1), int64(0)
+					if dos, ok := st.(storer.DeltaObjectStorer); ok && window > 0 {
+						if d, derr := dos.DeltaObject(plumbing.AnyObject, h); derr == nil {
+							if do, isd := d.(plumbing.DeltaObject); isd {
+								actual = do.ActualSize()
+								if k, known := keys[do.BaseHash().String()]; known {
+									stored = int64(k)
+								} else {
+									stored = 999999
+								}
+							}
+						}
+					}
+					info = append(info, []int64{int64(keys[h.String()]), int64(o.Type()), o.Size(), stored, actual})
+				}
+				var ord []int64
+				for _, o := range otps {
+					ord = append(ord, int64(uidOf[o.Hash().String()]))
+				}
+				var dsz [][]int64
+				if window > 0 {
+					inReq := map[int64]bool{}
+					for _, x := range info {
+						inReq[x[0]] = true
+					}
+					for i := range otps {
+						ti := info[ord[i]]
+						if ti[1] != int64(plumbing.BlobObject) && ti[1] != int64(plumbing.TreeObject) {
+							continue
+						}
+						if ti[3] >= 0 && inReq[ti[3]] {
+							continue // reused delta: never a target
+						}
+						for j := i - 1; j >= 0 && i-j < window; j-- {
+							bi := info[ord[j]]
+							if bi[1] != ti[1] {
+								break
+							}
+							d, derr := packfile.GetDelta(objs[bi[0]], objs[ti[0]])
+							if derr != nil {
+								return lib.Err("getdelta"), map[string]any{"error": derr.Error()}
+							}
+							dsz = append(dsz, []int64{ord[j], ord[i], d.Size()})
+						}
+					}
+				}
+				extra["sel"] = map[string]any{"objs": info, "order": ord, "dsz": dsz}
 			}
 		default:
 			return lib.Err("badcase"), nil
@@ -285,6 +352,16 @@ func main() {
 			graph = append(graph, []int64{int64(keys[o.Hash().String()]), b, int64(o.Depth)})
 		}
 		extra["graph"] = graph
+		var graphOut []lib.Out
+		for _, g := range graph {
+			b := lib.Sym("none")
+			if g[1] >= 0 {
+				b = lib.Int(g[1])
+			} else if g[1] == -2 {
+				b = lib.Sym("outside")
+			}
+			graphOut = append(graphOut, lib.List(lib.Int(g[0]), b, lib.Int(g[2])))
+		}
 
 		var buf bytes.Buffer
 		enc := packfile.NewEncoder(&buf, st, useRef, packfile.WithObjectSelector(passthrough{otps}))
@@ -348,7 +425,11 @@ func main() {
 				outs = append(outs, lib.List(lib.Int(int64(k)), lib.Sym("delta"), lib.Int(baseKey)))
 			}
 		}
-		return lib.Ok(lib.List(lib.Sym("count"), lib.Uint(uint64(count))), lib.List(outs...),
-			lib.List(lib.Sym("trailer"), lib.Bool(trailerOK && ph.String() == hex.EncodeToString(pack[len(pack)-hashLen:])))), extra
+		encOut := lib.Ok(lib.List(lib.Sym("count"), lib.Uint(uint64(count))), lib.List(outs...),
+			lib.List(lib.Sym("trailer"), lib.Bool(trailerOK && ph.String() == hex.EncodeToString(pack[len(pack)-hashLen:]))))
+		if c.Bool("sel") {
+			return lib.List(lib.List(graphOut...), encOut), extra
+		}
+		return encOut, extra
 	})
 }
